@@ -36,7 +36,7 @@ echo "-- baseline with change"; /verif/baseline.sh $W | tail -2
 git checkout -q -- . ; git clean -fdq
 # now the checks against /repo
 git -C /repo apply $S/patch.diff || { echo "PATCH DOES NOT APPLY TO /repo"; exit 1; }
-for id in C01 C02 C03 C04 C05 C06 C07 C08 C09 C12 C13 C14 C16 C17 C18 C19; do
+for id in C01 C02 C03 C04 C05 C06 C07 C08 C09 C10 C11 C12 C13 C14 C16 C17 C18 C19 C20; do
   out=$(/verif/bin/owcheck -repo /repo -verif /tmp/seedverif -prop $id 2>&1); rc=$?
   if [ $rc -ne 0 ]; then echo "   CHECK $id FIRES:"; echo "$out" | grep -v '^VIOLATION\|^KNOWN' | grep -v ' quick: ' | head -4 | cut -c1-300; fi
 done
